@@ -103,6 +103,19 @@ func init() {
 					}
 					if r.Intn(4) == 0 {
 						c["flags"] = []string{"-cp"}
+					} else if r.Intn(4) == 0 { // counting the models of an OPB file (the objective plays no role)
+						c["flags"], c["mode"] = []string{"-count"}, "count"
+						if r.Intn(2) == 0 { // constraints that fix variables, several times
+							cons = nil
+							for j := 0; j < 1+r.Intn(4); j++ {
+								l := gen.RandLit(r, n)
+								cons = append(cons, gen.Ctor("gteq", []int{l}, []int{1 + r.Intn(2)}, 1))
+							}
+							for _, k := range cons {
+								k["weight"] = 0
+							}
+							c["cons"] = cons
+						}
 					}
 					res = append(res, c)
 				case 6, 7: // .wcnf
